@@ -23,6 +23,10 @@ pub mod life {
         fn observe(r: &Self::Rx) -> Self::Fut;
         fn is_none(o: &<Self::Fut as Future>::Output) -> bool;
         fn forget_output(o: <Self::Fut as Future>::Output) { core::mem::forget(o) }
+        /// sends Tag(7) through the handle; true if it was accepted
+        fn send7(t: &Self::Tx) -> bool;
+        /// the tag inside a Some(..) output
+        fn tag_of(o: &<Self::Fut as Future>::Output) -> Option<u8>;
     }
 
     pub const W_DROP_NONLAST_RX: u32 = 1; // a receiver handle was dropped while another one is alive
@@ -134,6 +138,8 @@ pub mod life {
         fn clone_rx(r: &Self::Rx) -> Self::Rx { r.clone() }
         fn observe(r: &Self::Rx) -> Self::Fut { r.receive() }
         fn is_none(o: &Option<Tag>) -> bool { o.is_none() }
+        fn send7(t: &Self::Tx) -> bool { match t.try_send(Tag(7)) { Ok(()) => true, Err(e) => { core::mem::forget(e); false } } }
+        fn tag_of(o: &Option<Tag>) -> Option<u8> { o.as_ref().map(|t| t.0) }
     }
     pub struct Oneshot<M>(core::marker::PhantomData<M>);
     impl<M: lock_api::RawMutex + 'static> Flavour for Oneshot<M> {
@@ -147,6 +153,8 @@ pub mod life {
         fn clone_rx(_r: &Self::Rx) -> Self::Rx { unreachable!() }
         fn observe(r: &Self::Rx) -> Self::Fut { r.receive() }
         fn is_none(o: &Option<Tag>) -> bool { o.is_none() }
+        fn send7(t: &Self::Tx) -> bool { match t.send(Tag(7)) { Ok(()) => true, Err(e) => { core::mem::forget(e); false } } }
+        fn tag_of(o: &Option<Tag>) -> Option<u8> { o.as_ref().map(|t| t.0) }
     }
     pub struct OneshotBc<M>(core::marker::PhantomData<M>);
     impl<M: lock_api::RawMutex + 'static> Flavour for OneshotBc<M> {
@@ -160,6 +168,8 @@ pub mod life {
         fn clone_rx(r: &Self::Rx) -> Self::Rx { r.clone() }
         fn observe(r: &Self::Rx) -> Self::Fut { r.receive() }
         fn is_none(o: &Option<Tag>) -> bool { o.is_none() }
+        fn send7(t: &Self::Tx) -> bool { match t.send(Tag(7)) { Ok(()) => true, Err(e) => { core::mem::forget(e); false } } }
+        fn tag_of(o: &Option<Tag>) -> Option<u8> { o.as_ref().map(|t| t.0) }
     }
     pub struct State<M>(core::marker::PhantomData<M>);
     impl<M: lock_api::RawMutex + 'static> Flavour for State<M> {
@@ -173,6 +183,8 @@ pub mod life {
         fn clone_rx(r: &Self::Rx) -> Self::Rx { r.clone() }
         fn observe(r: &Self::Rx) -> Self::Fut { r.receive(crate::channel::StateId::new()) }
         fn is_none(o: &Option<(crate::channel::StateId, Tag)>) -> bool { o.is_none() }
+        fn send7(t: &Self::Tx) -> bool { match t.send(Tag(7)) { Ok(()) => true, Err(e) => { core::mem::forget(e); false } } }
+        fn tag_of(o: &Option<(crate::channel::StateId, Tag)>) -> Option<u8> { o.as_ref().map(|x| (x.1).0) }
     }
 
     /// C11, mpmc only: dropping the LAST receiver handle discards buffered values immediately, also when the channel
@@ -462,6 +474,44 @@ pub mod life {
         bits
     }
 
+    /// C11 "receivers still get the value accepted before the close" for the shared flavours whose receive futures outlive
+    /// their handles: a receive future is created (optionally polled to Pending), a value is accepted, then the receiver
+    /// handle and/or the sender handle are dropped (implicit close), then the future is polled: it must yield that value.
+    pub fn shared_value_survives<L: Flavour, S: Src>(s: &mut S, p: u32) -> u32 {
+        let (tx, rx) = L::mk();
+        let cell = WakeCell::new();
+        let waker = ManuallyDrop::new(mk_waker(&cell));
+        let mut cx = Context::from_waker(&waker);
+        let mut f = ManuallyDrop::new(L::observe(&rx));
+        let polled_first = s.flag();
+        if polled_first {
+            if let Poll::Ready(o) = unsafe { Pin::new_unchecked(&mut *f) }.poll(&mut cx) {
+                L::forget_output(o);
+                if (p & (P11 | P12 | P13)) != 0 { assert!(false, "C11+C12+C13 shared receive future: completed on a fresh open channel"); }
+            }
+        }
+        let accepted = L::send7(&tx);
+        if (p & (P11 | P12 | P13)) != 0 { assert!(accepted, "C11+C12+C13 shared channel: a send on an open channel with both sides alive was rejected"); }
+        if polled_first && (p & (P12 | P13)) != 0 { assert!(cell.n() >= 1, "C12+C13 shared receive future: pending at the send but not woken"); }
+        let who = s.below(3); // 0 drop the receiver handle, 1 drop the sender handle, 2 both
+        let mut tx = ManuallyDrop::new(tx);
+        let mut rx = ManuallyDrop::new(rx);
+        if who != 1 { unsafe { ManuallyDrop::drop(&mut rx) }; }
+        if who != 0 { unsafe { ManuallyDrop::drop(&mut tx) }; }
+        match unsafe { Pin::new_unchecked(&mut *f) }.poll(&mut cx) {
+            Poll::Ready(o) => {
+                if (p & (P11 | P12 | P13)) != 0 {
+                    assert!(L::tag_of(&o) == Some(7), "C11+C12+C13 shared receive future: the value accepted before the handles were dropped was not delivered");
+                }
+                L::forget_output(o);
+            }
+            Poll::Pending => { if (p & (P11 | P12 | P13)) != 0 { assert!(false, "C11+C12+C13 shared receive future: pending although a value was accepted"); } }
+        }
+        let bits = (polled_first as u32) | ((who as u32) << 1);
+        s.reached(bits);
+        bits
+    }
+
     /// Shared (Arc-based) receive futures and waker replacement: the future is polled with waker A, re-polled with waker B
     /// (same data pointer, other vtable - `will_wake` is false), then the last sender handle is dropped (implicit close):
     /// the pending future must have been woken through B, the waker of its latest poll, and must then resolve to None.
@@ -689,6 +739,9 @@ pub mod life {
             "shared_stream_min" => { shared_stream_min::<NL, _>(s, p); }
             "shared_mpmc_min" => { shared_mpmc_min::<NL, _>(s, p); }
             "mpmc_handles" => { mpmc_handles::<NL, _>(s, 64, p); }
+            "shared_value_oneshot" => { shared_value_survives::<Oneshot<NL>, _>(s, p); }
+            "shared_value_oneshot_bc" => { shared_value_survives::<OneshotBc<NL>, _>(s, p); }
+            "shared_value_state" => { shared_value_survives::<State<NL>, _>(s, p); }
             "shared_waker_mpmc" => { shared_waker::<Mpmc<NL>, _>(s, p); }
             "shared_waker_oneshot" => { shared_waker::<Oneshot<NL>, _>(s, p); }
             "shared_waker_oneshot_bc" => { shared_waker::<OneshotBc<NL>, _>(s, p); }
@@ -724,6 +777,15 @@ pub mod life {
                 }
             };
         }
+        #[kani::proof]
+        #[kani::unwind(4)]
+        fn shared_value_oneshot() { let _ = shared_value_survives::<Oneshot<NL>, _>(&mut KaniSrc, P11); }
+        #[kani::proof]
+        #[kani::unwind(4)]
+        fn shared_value_oneshot_bc() { let _ = shared_value_survives::<OneshotBc<NL>, _>(&mut KaniSrc, P11); }
+        #[kani::proof]
+        #[kani::unwind(4)]
+        fn shared_value_state() { let _ = shared_value_survives::<State<NL>, _>(&mut KaniSrc, P11); }
         #[kani::proof]
         #[kani::unwind(4)]
         fn shared_waker_mpmc() { let _ = shared_waker::<Mpmc<NL>, _>(&mut KaniSrc, P10); }
